@@ -8,7 +8,7 @@ templates with NULL / 0-byte / short / exact / oversized buffers, and the key is
 wrapping keys with every wrap mechanism.  Oracle: the sticky-protection model of the statement plus a taint scan of every
 output buffer for 8-byte windows of the known secret values.
 """
-import itertools, time
+import itertools, json, time
 from p11mc import consts as C
 from p11mc.core import CheckBase, Explorer, Violation, confirm_violations
 from p11mc.runner import Report
@@ -323,6 +323,75 @@ class C02(CheckBase):
         return "C02|%s|%r" % (action[0] if action else None, d.info)
 
 
+# ------------------------------------------------------------------------------------------------ template-length ladder
+FILLERS = [(C.CKA_LABEL, b"ladder"), (C.CKA_ID, b"id"), (C.CKA_ENCRYPT, True), (C.CKA_DECRYPT, True), (C.CKA_SIGN, True), (C.CKA_VERIFY, True), (C.CKA_WRAP, False), (C.CKA_UNWRAP, False),
+           (C.CKA_DERIVE, True), (C.CKA_WRAP_WITH_TRUSTED, False), (C.CKA_COPYABLE, True), (C.CKA_DESTROYABLE, True), (C.CKA_MODIFIABLE, True), (C.CKA_TOKEN, False), (C.CKA_PRIVATE, False),
+           (C.CKA_START_DATE, b"20200101"), (C.CKA_END_DATE, b"20400101"), (C.CKA_CLASS, C.CKO_SECRET_KEY), (C.CKA_KEY_TYPE, C.CKK_GENERIC_SECRET),
+           (C.CKA_ALLOWED_MECHANISMS, ul(C.CKM_SHA256_HMAC)), (C.CKA_WRAP_TEMPLATE, [(C.CKA_ENCRYPT, True)]), (C.CKA_UNWRAP_TEMPLATE, [(C.CKA_ENCRYPT, True)]),
+           (C.CKA_LABEL, b"again-1"), (C.CKA_ID, b"again-2"), (C.CKA_ENCRYPT, True), (C.CKA_DECRYPT, True), (C.CKA_SIGN, True), (C.CKA_VERIFY, True), (C.CKA_DERIVE, True), (C.CKA_LABEL, b"again-3"),
+           (C.CKA_ID, b"again-4"), (C.CKA_ENCRYPT, True)]
+
+
+def _ladder_task(task):
+    """inherited protections at EVERY template length: a key concatenated from a sensitive / unextractable key with a template that asks for
+    CKA_SENSITIVE=false, CKA_EXTRACTABLE=true plus n-2 harmless entries, n = 2 .. 34 (internal template buffers have a fixed capacity)"""
+    import traceback
+    from p11mc import core as _core
+    ctx = _core._W["ctx"]
+    p, sh = ctx.p, ctx.sh
+    out = {"viol": {}, "harness": None, "derived": 0, "refused": 0, "cells": 0}
+
+    def V(sig, det):
+        out["viol"].setdefault(sig, {"signature": sig, "detail": det, "task": list(task), "history": [], "action": None})
+    try:
+        sh.snap(copy=False)
+        try:
+            s = W.ok(p.OpenSession(ctx.world["slots"]["A"]), "open")["h"]
+            r_ = p.Login(s, C.CKU_USER, W.USER_A)
+            if r_["rv"] not in (0, C.CKR_USER_ALREADY_LOGGED_IN):
+                raise RuntimeError("login -> %r" % r_)
+            secret = bytes(range(1, 33))
+            plain = W.ok(p.CreateObject(s, F.template("generic32", token=False, private=False, label=b"plain", extra=[(C.CKA_DERIVE, True)])), "plain")["h"]
+            for pname, flags in (("sensitive", [(C.CKA_SENSITIVE, True), (C.CKA_EXTRACTABLE, True)]), ("unextractable", [(C.CKA_SENSITIVE, False), (C.CKA_EXTRACTABLE, False)])):
+                T0 = [x for x in F.template("generic32", token=False, private=False, label=b"protected", extra=[(C.CKA_DERIVE, True)], plain=False) if x[0] != C.CKA_VALUE] + flags + [(C.CKA_VALUE, secret)]
+                prot = W.ok(p.CreateObject(s, T0), "protected " + pname)["h"]
+                wk = W.ok(p.CreateObject(s, F.template("aes128", token=False, private=False, label=b"wk", extra=[(C.CKA_WRAP, True)])), "wk")["h"]
+                for mname, dm, base in (("base-and-data", mech(C.CKM_CONCATENATE_BASE_AND_DATA, keyderiv_string(b"DATADATA")), prot),
+                                        ("data-and-base", mech(C.CKM_CONCATENATE_DATA_AND_BASE, keyderiv_string(b"DATADATA")), prot),
+                                        ("base-and-key/protected-base", mech(C.CKM_CONCATENATE_BASE_AND_KEY, ul(plain)), prot),
+                                        ("base-and-key/protected-other", mech(C.CKM_CONCATENATE_BASE_AND_KEY, ul(prot)), plain)):
+                    for n in range(2, len(FILLERS) + 3):
+                        T = [(C.CKA_SENSITIVE, False), (C.CKA_EXTRACTABLE, True)] + FILLERS[:n - 2]
+                        r = p.DeriveKey(s, dm, base, T)
+                        out["cells"] += 1
+                        if r["rv"] != 0:
+                            out["refused"] += 1
+                            continue
+                        out["derived"] += 1
+                        h = r["h"]
+                        g = p.get_attrs(s, h, [C.CKA_SENSITIVE, C.CKA_EXTRACTABLE])
+                        rv_val = p.GetAttributeValue(s, h, [(C.CKA_VALUE, Out(80))])
+                        leaked = rv_val["rv"] == 0 or secret[:8].hex() in json.dumps(rv_val)
+                        sigb = "C02|template-length|%s|%s-parent" % (mname, pname)
+                        if pname == "sensitive" and g.get(C.CKA_SENSITIVE) is not True:
+                            V(sigb + "|CKA_SENSITIVE-not-inherited", {"template_entries": n, "got": repr(g)})
+                        if pname == "unextractable" and g.get(C.CKA_EXTRACTABLE) is not False:
+                            V(sigb + "|CKA_EXTRACTABLE-not-inherited", {"template_entries": n, "got": repr(g)})
+                        if leaked:
+                            V(sigb + "|value-of-derived-key-readable", {"template_entries": n, "rv": rv_val["rv"]})
+                        if pname == "unextractable":
+                            rw = p.call("C_WrapKey s=%d mech=%s wk=%d k=%d out=b200" % (s, mech(C.CKM_AES_KEY_WRAP_PAD), wk, h))
+                            if rw["rv"] == 0:
+                                V(sigb + "|derived-key-can-be-wrapped", {"template_entries": n})
+                        p.DestroyObject(s, h)
+        finally:
+            sh.unwind(0)
+    except Exception:
+        out["harness"] = "ladder: " + traceback.format_exc()
+    out["viol"] = list(out["viol"].values())
+    return out
+
+
 def main(tier):
     rep = Report("C02", tier, "model_checking")
     quick = tier == "quick"
@@ -343,6 +412,21 @@ def main(tier):
                         "rule": "level 1 = every (origin x key kind x requested SENSITIVE/EXTRACTABLE) root; deeper levels = set/copy/concatenate histories; states merged on "
                                 "(kind, origin, model protections) of the live keys; in every state all secret attributes are read in 15 template/buffer shapes and "
                                 "the key is wrapped under 4 wrapping keys x all wrap mechanisms"}
+        # template-length ladder (one task; replayed once before it is reported)
+        lr = ex.pool.apply(_ladder_task, (("ladder",),))
+        if lr["harness"]:
+            rep.harness_errors.append(lr["harness"])
+        if lr["viol"]:
+            again = {v["signature"] for v in ex.pool.apply(_ladder_task, (("ladder",),))["viol"]}
+            for v in lr["viol"]:
+                if v["signature"] in again:
+                    v = dict(v); v.update(variant=variant, store="file", replay_module="c02_sensitive")
+                    rep.add_violation(v)
+                else:
+                    rep.harness_errors.append("ladder violation %s did not reproduce" % v["signature"])
+        if lr["derived"] < 50:
+            rep.harness_errors.append("vacuous template-length ladder: %r" % {k: lr[k] for k in ("cells", "derived", "refused")})
+        rep.coverage["template_length_ladder"] = {k: lr[k] for k in ("cells", "derived", "refused")}
         rep.assumptions = ["key kinds: AES, generic, RSA, EC, DSA, DH, Ed25519 private keys (single DES is unusable on this image's OpenSSL)",
                            "taint scan covers keys whose value the harness knows (imported ones and their copies/concatenations)"]
     finally:
